@@ -63,7 +63,11 @@ class Flow:
         body: Optional[List[ast.stmt]] = None,
         assert_raises: bool = False,
         assume: Optional[Callable[[ast.AST], Optional[bool]]] = None,
+        handler_from_entry: bool = False,
     ):
+        # handler_from_entry: an except-handler is analysed as an alternative to the WHOLE try body
+        # (the failure is assumed to happen before the body had any effect)
+        self.handler_from_entry = handler_from_entry
         self.assume = assume
         self.func = func
         self.events = events
@@ -333,6 +337,8 @@ class Flow:
             outs.append(self._stmts(s.orelse, body_out))
         if s.handlers:
             h_in = join(T["seen"], T["raised"]) if T["raised"] is not None else T["seen"]
+            if self.handler_from_entry:
+                h_in = dict(st)
             for h in s.handlers:
                 outs.append(self._stmts(h.body, h_in))
         self._tries.pop()
